@@ -2,10 +2,13 @@ package c10
 
 import (
 	"fmt"
+	"github.com/uhppoted/uhppote-core/uhppote"
 	"net"
 	"os"
+	"os/signal"
 	"strings"
 	"sync"
+	"syscall"
 	"time"
 
 	"github.com/uhppoted/uhppote-core/types"
@@ -89,6 +92,9 @@ func checkOverlap(c overlapCase) *rp.Fail {
 func runOverlap(c overlapCase) *rp.Fail {
 	if c.Kind == "two-sites" {
 		return checkTwoSites(c)
+	}
+	if c.Kind == "process-signal" {
+		return checkProcessSignal(c)
 	}
 	port, err := farm.FreePort([4]byte{127, 0, 0, 1})
 	if err != nil {
@@ -332,6 +338,7 @@ func sweepOverlap(yield func(overlapCase) bool) {
 		{Kind: "overlap", Overlaps: 0, Events: 4, Malformed: 4},
 		{Kind: "stop-from-callback", Events: 1},
 		{Kind: "restart-while-callback-busy", Events: 1},
+		{Kind: "process-signal", Events: 2},
 		{Kind: "two-sites", Events: 3},
 		{Kind: "two-sites", Events: 5, Debug: true},
 		{Kind: "restart-while-callback-busy", Events: 0, Debug: true},
@@ -471,6 +478,129 @@ func checkTwoSites(c overlapCase) *rp.Fail {
 		}
 		if l, err := net.ListenUDP("udp4", s.dest); err != nil {
 			return rp.Failf("uhppote.Listen/two-sites/address-still-bound", "%v is not free after Listen returned: %v", s.dest, err)
+		} else {
+			l.Close()
+		}
+	}
+	return nil
+}
+
+// valueListener is a Listener whose dynamic type is a struct VALUE (value receivers, channel fields) - not a pointer.
+type valueListener struct {
+	events chan uint32
+	errors chan struct{}
+	up     chan struct{}
+}
+
+func (l valueListener) OnConnected() {
+	select {
+	case l.up <- struct{}{}:
+	default:
+	}
+}
+func (l valueListener) OnEvent(s *types.Status) { l.events <- s.Event.Index }
+func (l valueListener) OnError(error) bool {
+	select {
+	case l.errors <- struct{}{}:
+	default:
+	}
+	return true
+}
+
+// funcListener: the Listener interface implemented on a function type.
+type funcListener func(ix uint32)
+
+func (f funcListener) OnConnected()            {}
+func (f funcListener) OnEvent(s *types.Status) { f(s.Event.Index) }
+func (f funcListener) OnError(error) bool      { return true }
+
+// process-signal: the application registers ONE channel with signal.Notify and uses it for every Listen cycle; the listener is
+// stopped by a real signal sent to the process (SIGUSR1 - a second subscriber keeps the default action away). Cycle after
+// cycle the listener delivers its events and stops when the signal arrives. The listeners are not pointers: a struct value with
+// value receivers in the odd cycles, a function type in the even ones.
+func checkProcessSignal(c overlapCase) *rp.Fail {
+	port, err := farm.FreePort([4]byte{127, 0, 0, 1})
+	if err != nil {
+		return nil
+	}
+	dest := &net.UDPAddr{IP: net.IPv4(127, 0, 0, 1), Port: int(port)}
+	sender, err := net.DialUDP("udp4", nil, dest)
+	if err != nil {
+		return nil
+	}
+	defer sender.Close()
+	keep := make(chan os.Signal, 8) // (keeps the process alive whatever the library does with q)
+	signal.Notify(keep, syscall.SIGUSR1)
+	defer signal.Stop(keep)
+	q := make(chan os.Signal, 1)
+	signal.Notify(q, syscall.SIGUSR1)
+	defer signal.Stop(q)
+	u := hook.Real(hook.ClientCfg{HasListen: true, ListenIP: [4]byte{127, 0, 0, 1}, ListenPort: port, Debug: c.Debug})
+	for cycle := 1; cycle <= 3; cycle++ {
+		events := make(chan uint32, 64)
+		var l uhppote.Listener = valueListener{events: events, errors: make(chan struct{}, 1), up: make(chan struct{}, 1)}
+		if cycle%2 == 0 {
+			l = funcListener(func(ix uint32) { events <- ix })
+		}
+		done := make(chan error, 1)
+		go func() {
+			defer func() {
+				if r := recover(); r != nil {
+					done <- fmt.Errorf("PANIC: %v", r)
+				}
+			}()
+			done <- u.Listen(l, q)
+		}()
+		got := 0
+		for deadline := time.Now().Add(5 * time.Second); got == 0; {
+			sender.Write(eventDatagram(1))
+			select {
+			case <-events:
+				got++
+			case err := <-done:
+				return rp.Failf("uhppote.Listen/process-signal/did-not-start", "cycle %d: Listen with a listener of type %T returned %v before any event was delivered", cycle, l, err)
+			case <-time.After(10 * time.Millisecond):
+				if time.Now().After(deadline) {
+					syscall.Kill(os.Getpid(), syscall.SIGUSR1)
+					return rp.Failf("uhppote.Listen/process-signal/missing-callbacks", "cycle %d: no event callback within 5 s (listener type %T)", cycle, l)
+				}
+			}
+		}
+		for i := 0; i < c.Events; i++ {
+			sender.Write(eventDatagram(uint32(2 + i)))
+		}
+		want := uint32(2)
+		for timeout := time.After(3 * time.Second); int(want)-2 < c.Events; {
+			select {
+			case ix := <-events:
+				if ix == 1 {
+					continue
+				}
+				if ix != want {
+					syscall.Kill(os.Getpid(), syscall.SIGUSR1)
+					return rp.Failf("uhppote.Listen/process-signal/events-lost-or-reordered", "cycle %d: expected event %d, got %d", cycle, want, ix)
+				}
+				want++
+			case <-timeout:
+				syscall.Kill(os.Getpid(), syscall.SIGUSR1)
+				return rp.Failf("uhppote.Listen/process-signal/events-lost-or-reordered", "cycle %d: events 2..%d were sent, event %d never arrived", cycle, 1+c.Events, want)
+			}
+		}
+		syscall.Kill(os.Getpid(), syscall.SIGUSR1)
+		select {
+		case err := <-done:
+			if err != nil {
+				return rp.Failf("uhppote.Listen/process-signal/stop-error", "cycle %d: Listen returned %v after the process received SIGUSR1", cycle, err)
+			}
+		case <-time.After(6 * time.Second):
+			close(q) // (hand-made stop so that the harness can go on)
+			return rp.Failf("uhppote.Listen/process-signal/does-not-stop", "cycle %d: the process received SIGUSR1 - delivered to the channel the application registered once with signal.Notify and passes to every Listen call - but the listener is still running after 6 s", cycle)
+		}
+		for len(keep) > 0 {
+			<-keep
+		}
+		if l, err := net.ListenUDP("udp4", dest); err != nil {
+			return rp.Failf("uhppote.Listen/process-signal/address-still-bound", "cycle %d: listen address not free after Listen returned: %v", cycle, err)
 		} else {
 			l.Close()
 		}
